@@ -143,6 +143,10 @@ func c15AnyExcluded(rel string) bool {
 type c15Resolved struct {
 	Rel  string // relative to the tree root, "" = root
 	Kind string // "dir", "file", "symlink"
+
+	// ViaLink: the argument passes through a symbolic link to a directory
+	// of the tree; Rel is where that leads.
+	ViaLink bool
 }
 
 // c15Resolve interprets one argument: a trailing "..." is ignored, relative
@@ -172,19 +176,55 @@ func c15Resolve(m *c15Model, root, cwdRel, arg string) (c15Resolved, bool) {
 	default:
 		return c15Resolved{}, false
 	}
-	if rel != "" {
-		parts := strings.Split(rel, "/")
-		for i := 1; i < len(parts); i++ {
-			if m.kindOf(strings.Join(parts[:i], "/")) != "dir" {
-				return c15Resolved{}, false
-			}
-		}
+	rel, via, ok := c15Follow(m, rel)
+	if !ok {
+		return c15Resolved{}, false
 	}
 	k := m.kindOf(rel)
 	if k == "" {
 		return c15Resolved{}, false
 	}
-	return c15Resolved{Rel: rel, Kind: k}, true
+	return c15Resolved{Rel: rel, Kind: k, ViaLink: via}, true
+}
+
+// c15Follow resolves the symbolic links to directories of the tree among the
+// elements of rel other than the last, the way the operating system does when
+// the path is opened.
+func c15Follow(m *c15Model, rel string) (_ string, via, ok bool) {
+	for hops := 0; rel != ""; hops++ {
+		if hops > 8 {
+			return "", false, false
+		}
+		parts := strings.Split(rel, "/")
+		again := false
+		for i := 1; i < len(parts); i++ {
+			pre := strings.Join(parts[:i], "/")
+			switch m.kindOf(pre) {
+			case "dir":
+				continue
+			case "symlink":
+				// a link to a directory of the tree is followed by the
+				// operating system when it is not the last element
+				par := path.Dir(pre)
+				if par == "." {
+					par = ""
+				}
+				if cl := c15LinkClass(m, par, m.byPath[pre].Target); cl != "dir" && cl != "ancestor-dir" {
+					return "", false, false
+				}
+				t := path.Join("/", par, m.byPath[pre].Target)
+				rel = strings.TrimPrefix(path.Join(t, strings.Join(parts[i:], "/")), "/")
+				via, again = true, true
+			default:
+				return "", false, false
+			}
+			break
+		}
+		if !again {
+			break
+		}
+	}
+	return rel, via, true
 }
 
 // c15Reference is the reference walk. It returns the verdict of every regular
@@ -228,7 +268,9 @@ func c15Reference(m *c15Model, res []c15Resolved) map[string]int {
 			// files below it that are not behind a *further* excluded
 			// directory may or may not be processed.
 			v := c15Must
-			if c15AnyExcluded(r.Rel) {
+			if c15AnyExcluded(r.Rel) || r.ViaLink {
+				// (a directory named through a link: "no symlinks" and
+				// "beneath a named directory" pull in different directions)
 				v = c15Either
 			}
 			walk(r.Rel, v)
@@ -487,7 +529,7 @@ func evalC15(cs *c15Case) (sig, msg string, info c15Info) {
 			}
 			listed = append(listed, mt[1])
 		}
-		seen := map[string]bool{}
+		seen, seenReal := map[string]bool{}, map[string]bool{}
 		for i, abs := range listed {
 			if seen[abs] {
 				return "verbose-duplicate", fmt.Sprintf("-v lists %s more than once: %q%s", abs, listed, describe()), info
@@ -500,12 +542,19 @@ func evalC15(cs *c15Case) (sig, msg string, info c15Info) {
 			if strings.HasPrefix(abs, root+"/") {
 				rel = abs[len(root)+1:]
 			}
+			if real, _, ok := c15Follow(m, rel); ok && rel != "" {
+				rel = real
+			}
+			if seenReal[rel] && rel != "" {
+				return "verbose-duplicate", fmt.Sprintf("-v lists the file %s more than once, under different names: %q%s", rel, listed, describe()), info
+			}
+			seenReal[rel] = true
 			if rel == "" || m.kindOf(rel) != "file" || verdict[rel] == c15MustNot {
 				return "verbose-extra", fmt.Sprintf("-v reports %q, which is not in the reference set%s", abs, describe()), info
 			}
 		}
 		for _, p := range paths {
-			if verdict[p] == c15Must && !seen[root+"/"+p] {
+			if verdict[p] == c15Must && !seen[root+"/"+p] && !seenReal[p] {
 				return "verbose-missing", fmt.Sprintf("-v does not report %s (stdout %q)%s", p, trunc(string(r.Stdout), 600), describe()), info
 			}
 		}
@@ -781,6 +830,8 @@ func c15Gen(rt *rapid.T) *c15Case {
 		cs.Entries = append(cs.Entries, c15Entry{Path: p, Kind: "file", NoMatch: rapid.IntRange(0, 9).Draw(rt, "nomatch") == 9})
 	}
 	// Symlinks.
+	var dirLinks []string
+	dirLinkTarget := map[string]string{}
 	ns := rapid.IntRange(0, 3).Draw(rt, "nlinks")
 	for i := 0; i < ns; i++ {
 		par := dirs[rapid.IntRange(0, len(dirs)-1).Draw(rt, "linkParent")]
@@ -803,6 +854,15 @@ func c15Gen(rt *rapid.T) *c15Case {
 			}
 		}
 		links = append(links, p)
+		if target != path.Base(p) {
+			full := strings.TrimPrefix(path.Join("/", par, target), "/")
+			for _, d := range dirs {
+				if d == full && d != "" {
+					dirLinks = append(dirLinks, p)
+					dirLinkTarget[p] = d
+				}
+			}
+		}
 		cs.Entries = append(cs.Entries, c15Entry{Path: p, Kind: "symlink", Target: target})
 	}
 
@@ -878,9 +938,28 @@ func c15Gen(rt *rapid.T) *c15Case {
 			if f, ok := pick(otherFiles, "argOtherFile"); ok {
 				t = tgt{f, "file"}
 			}
-		default:
+		case w < 95:
 			if l, ok := pick(links, "argLink"); ok {
 				t = tgt{l, "symlink"}
+			}
+		default:
+			// a file (or directory) named through a link to a directory
+			if l, ok := pick(dirLinks, "argViaLink"); ok {
+				under := dirLinkTarget[l]
+				var cand []tgt
+				for _, f := range files {
+					if under == "" || strings.HasPrefix(f, under+"/") {
+						cand = append(cand, tgt{path.Join(l, strings.TrimPrefix(strings.TrimPrefix(f, under), "/")), "file"})
+					}
+				}
+				for _, d := range dirs[1:] {
+					if under == "" || strings.HasPrefix(d, under+"/") {
+						cand = append(cand, tgt{path.Join(l, strings.TrimPrefix(strings.TrimPrefix(d, under), "/")), "dir"})
+					}
+				}
+				if len(cand) > 0 {
+					t = cand[rapid.IntRange(0, len(cand)-1).Draw(rt, "viaLinkTarget")]
+				}
 			}
 		}
 		if t.kind == "" {
